@@ -594,7 +594,7 @@ int main(int argc, char** argv) {
         if (!is) continue;
         Args a; while (is >> t) a.push_back(t);
         if (sigsetjmp(jb, 1)) { std::cout << "TIMEOUT" << std::endl; continue; }
-        arm(limit_ms);
+        arm(kind == "lcg" ? limit_ms + 5000 : limit_ms);     // GivRandom draws have no loop; long sequences need time to print
         std::string out = dispatch(kind, a);
         arm(0);
         std::cout << out << "\n";
